@@ -287,7 +287,11 @@ def d5_cohesion_sampler(ctx):
     if len(ren) == 1:
         v = astx.u(ren[0].value)
         tot = astx.unique_def(f.node, "total_value_sum")
-        good = v == "[v / total_value_sum for v in values]" and tot is not None and astx.u(tot) == "sum(values)" and min(d.lineno for d in dels) < ren[0].lineno
+        tot_st = [st for st, dv in astx.defs_of(f.node, "total_value_sum") if dv is not None]
+        # the sum is taken over the values that REMAIN: after both deletions, in the same block, before the renormalisation
+        order_ok = bool(dels) and len(tot_st) == 1 and max(d.lineno for d in dels) < tot_st[0].lineno < ren[0].lineno and \
+            pm.get(tot_st[0]) is pm.get(dels[0]) is pm.get(ren[0])
+        good = v == "[v / total_value_sum for v in values]" and tot is not None and astx.u(tot) == "sum(values)" and order_ok
     ctx.check(good, f, ren[0] if ren else f.node, "remaining cohesion values are renormalised by their sum after the deletion", "", "renormalisation after exhausting a slate changed")
     bins = [dv for st, dv in astx.defs_of(f.node, "distribution_bins") if dv is not None]
     ctx.check(len(bins) == 2 and all(astx.u(b) == "[0] + [sum(values[:i + 1]) for i in range(len(blocs))]" for b in bins), f, bins[0] if bins else f.node,
@@ -295,7 +299,11 @@ def d5_cohesion_sampler(ctx):
     wb = prog.nested_func(f, "which_bin")
     tests = [n.test for n in astx.walk_own(wb.node) if isinstance(n, ast.If)]
     k = astx.u(tests[0]) if tests else ""
-    ctx.check(bool(re.fullmatch(r"(\w+) < flip <= \w+\[\w+ \+ 1\]", k)), wb, tests[0] if tests else wb.node, "bin test is the half-open interval lo < flip <= hi", k, f"bin test is `{k}`")
+    shape_ok = len(wb.node.body) == 1 and isinstance(wb.node.body[0], ast.For) and astx.u(wb.node.body[0].iter) == f"enumerate({wb.params[0]})" \
+        and len([n for n in astx.walk_own(wb.node) if isinstance(n, ast.Return)]) == 1
+    ctx.check(bool(re.fullmatch(r"(\w+) < flip <= \w+\[\w+ \+ 1\]", k)) and shape_ok, wb, tests[0] if tests else wb.node,
+              "bin lookup: the only result is the bin with lo < flip <= hi, over all bins (no fallback bin)", k,
+              f"bin test is `{k}`; the lookup must scan all bins and return only on a match (a fallback silently assigns probability mass to another slate): shape ok={shape_ok}")
 
 
 def d6_model_parameters(ctx):
@@ -400,6 +408,9 @@ FAULTS = [
     ("AC cross/bloc split swapped", [(BG, "                if i < num_cross_ballots:\n                    # alternate", "                if i < num_bloc_ballots:\n                    # alternate")], "C16.D4"),
 ]
 FAULTS += [
+    ("cohesion sum taken before the deletion", [(BG, "                del blocs[bloc_index]\n                del values[bloc_index]\n                total_value_sum = sum(values)\n", "                total_value_sum = sum(values)\n                del blocs[bloc_index]\n                del values[bloc_index]\n")], "C16.D5"),
+    ("bin lookup falls back to the last bin", [(BG, "            if bin < flip <= dist_bins[i + 1]:\n                return i\n", "            if bin < flip <= dist_bins[i + 1]:\n                return i\n        return len(dist_bins) - 2\n")], "C16.D5"),
+    ("combined interval pairs dict orders", [(BG, "                    [self.pref_intervals_by_bloc[bloc][b] for b in self.blocs],\n                    [self.cohesion_parameters[bloc][b] for b in self.blocs],", "                    list(self.pref_intervals_by_bloc[bloc].values()),\n                    list(self.cohesion_parameters[bloc].values()),", "all")], "C16.D6"),
     ("combined interval uses other bloc's cohesion row", [(BG, "[self.cohesion_parameters[bloc][b] for b in self.blocs],", "[self.cohesion_parameters[b][bloc] for b in self.blocs],", "all")], "C16.D6"),
     ("impartial culture alpha 1", [(BG, "        super().__init__(alpha=float(\"inf\"), **data)", "        super().__init__(alpha=1.0, **data)")], "C16.D6"),
     ("dirichlet one short", [(BG, "np.random.default_rng().dirichlet([self.alpha] * len(perm_rankings))", "np.random.default_rng().dirichlet([self.alpha] * len(self.candidates))")], "C16.D"),
